@@ -41,7 +41,7 @@ CLAIMS = {
              "delivered together with the error. acquireSlow (growth, compaction, read loop) is proved against the representation invariant: buffered-but-unread bytes are exactly the stream bytes preceding the source's future; "
              "the error that surfaces is the source's own. Loops by invariants and decreases clauses (termination of the read loop included).",
         note="Assumes a source that does not stall forever: a nil error from Read comes with at least one byte unless len(p)==0 (otherwise the reader reports io.ErrNoProgress after 100 consecutive empty reads, "
-             "proved only as 'a non-nil error'). maxSizeStats (buffer size heuristic) has a trusted range contract. The choice of ghost stream for NewBytesReader (the caller's bytes are the stream) is a trusted clause. "
+             "proved only as 'a non-nil error'). The choice of ghost stream for NewBytesReader (the caller's bytes are the stream) is a trusted clause. "
              "Requests are limited to n <= 2^46. Two genuine defects were found and fixed (D10, D7). " + TRUST,
         design="5 C04"),
     "C05": dict(
@@ -51,7 +51,7 @@ CLAIMS = {
              "then WrittenLen is 0; a sink error is returned, stored and returned by every later Malloc/WriteBinary/Flush with nothing changed; for a bytes writer the flushed buffer with that content is published through the caller's pointer. "
              "All sizes, any number of growths (quantified invariants, no bound).",
         note="The sink is the io.Writer interface contract with a ghost log (number of Writes, bytes of the last Write); concatenation over several flushes is the composition of per-Flush contracts, not a single theorem. "
-             "The Writer interface clauses about $lastchunk/$prevchunk/$nchunks are ghost definitions (history of handed-out chunks) and are not proved of DefaultWriter. maxSizeStats is trusted. Requests above 2^47 bytes are assumed away with allocation failure. " + TRUST,
+             "The Writer interface clauses about $lastchunk/$prevchunk/$nchunks are ghost definitions (history of handed-out chunks) and are not proved of DefaultWriter. Requests above 2^47 bytes are assumed away with allocation failure. " + TRUST,
         design="5 C05"),
     "C09": dict(
         text="Proof by frames and ghost pool state (per byte region: live-from-pool / freed): Next/Peek/Skip/ReadBinary/acquire* of the reader write no byte below len(buf) (handed-out slices live there or in parked buffers, which are never written), "
